@@ -468,6 +468,22 @@ def _t_egcd(line, arg=None):
     return re.sub(r'Integer::extended_gcd\(&\((\w+) as (i64|i128)\), &\((\w+) as (i64|i128)\)\)', r'ol_egcd_\2(\1 as \2, \3 as \4)', line)
 
 
+def _t_bconst(line, arg=None):
+    """Rbconst: associated constants of bnum types (`BInt::<N>::ONE`, `BInt::<N>::ZERO`, `BInt::ZERO`, `BUint::ONE`) -> outlined
+    constructors `ol_bint_one::<N>()`, `ol_bint_zero::<N>()`, `ol_bint_zero()`, `ol_buint_one()` (associated constants of
+    foreign types are unsupported); assumed contracts: the values 1 / 0"""
+    line = re.sub(r'\bBInt::<N>::ONE\b', 'ol_bint_one::<N>()', line)
+    line = re.sub(r'\bBInt::<N>::ZERO\b', 'ol_bint_zero::<N>()', line)
+    line = re.sub(r'\bBInt::ZERO\b', 'ol_bint_zero()', line)
+    return re.sub(r'\bBUint::ONE\b', 'ol_buint_one()', line)
+
+
+def _t_egcd2(line, arg=None):
+    """Regcd2: `Integer::extended_gcd(&A, &B)` (A, B variables) -> `ol_egcd_ref(A, B)`: provided trait methods of foreign traits
+    cannot be given a specification; outlined with the assumed contract of Euclid's extended algorithm on non-negative operands"""
+    return re.sub(r'Integer::extended_gcd\(&(\w+), &(\w+)\)', r'ol_egcd_ref(\1, \2)', line)
+
+
 def _t_fsqrt(line, arg=None):
     """Rsqrt: `(X as f64).sqrt() as u64` -> `ol_f64_sqrt_u64(X)` (floating point is outside the Verus subset; outlined with
     an assumed accuracy contract)"""
@@ -481,11 +497,11 @@ def _t_mq(line, arg=None):
     return re.sub(r'\bs\.inverters\b', 'ol_mpqs_inverters(s)', line)
 
 
-TRANSFORMERS = [('Rmq', _t_mq), ('Rsqrt', _t_fsqrt), ('Regcd', _t_egcd), ('Rneut', _t_neut), ('Rzn', _t_zn), ('Rtup', _t_rtup), ('Rmul', _t_mulassign), ('Rconst', _t_one_const), ('Rref', _t_rref), ('Rtry', _t_try), ('Rverb', _t_verb), ('Rvec', _t_rvec), ('Rone', _t_one_shl), ('Rdiv', _t_opassign), ('R10', _t_r10), ('Rit', _t_forit), ('Rfor', _t_forname), ('R8', _t_r8), ('Rsort', _t_sort), ('R7', _t_r7), ('R1', _t_r1), ('R1u', _t_unsafe), ('ret', _t_ret), ('brace', _t_brace)]
+TRANSFORMERS = [('Rbconst', _t_bconst), ('Regcd2', _t_egcd2), ('Rmq', _t_mq), ('Rsqrt', _t_fsqrt), ('Regcd', _t_egcd), ('Rneut', _t_neut), ('Rzn', _t_zn), ('Rtup', _t_rtup), ('Rmul', _t_mulassign), ('Rconst', _t_one_const), ('Rref', _t_rref), ('Rtry', _t_try), ('Rverb', _t_verb), ('Rvec', _t_rvec), ('Rone', _t_one_shl), ('Rdiv', _t_opassign), ('R10', _t_r10), ('Rit', _t_forit), ('Rfor', _t_forname), ('R8', _t_r8), ('Rsort', _t_sort), ('R7', _t_r7), ('R1', _t_r1), ('R1u', _t_unsafe), ('ret', _t_ret), ('brace', _t_brace)]
 
 
 # line-local normalisations that need no accompanying ghost text: applied to current lines that have no pinned counterpart
-FREE = ('Rmq', 'Rsqrt', 'Regcd', 'R1', 'R1u', 'Rconst', 'Rmul', 'Rdiv', 'Rverb', 'Rtry', 'Rone', 'Rsort', 'R8', 'Rzn', 'Rneut')
+FREE = ('Rbconst', 'Regcd2', 'Rmq', 'Rsqrt', 'Regcd', 'R1', 'R1u', 'Rconst', 'Rmul', 'Rdiv', 'Rverb', 'Rtry', 'Rone', 'Rsort', 'R8', 'Rzn', 'Rneut')
 
 
 def free_normalise(line):
@@ -552,6 +568,8 @@ def key(line):
     s = re.sub(r'ol_f64_sqrt_u64\((\w+)\)', r'(\1 as f64).sqrt() as u64', s)
     s = re.sub(r'ol_egcd_(i64|i128)\((\w+) as (i64|i128), (\w+) as (i64|i128)\)', r'Integer::extended_gcd(&(\2 as \3), &(\4 as \5))', s)
     s = s.replace('ol_zn_n(zn)', 'zn.n')
+    s = s.replace('ol_bint_one::<N>()', 'BInt::<N>::ONE').replace('ol_bint_zero::<N>()', 'BInt::<N>::ZERO').replace('ol_bint_zero()', 'BInt::ZERO').replace('ol_buint_one()', 'BUint::ONE')
+    s = re.sub(r'ol_egcd_ref\((\w+), (\w+)\)', r'Integer::extended_gcd(&\1, &\2)', s)
     s = s.replace('ol_neutral128(self)', 'Point(M128(0), self.one, self.one)')
     s = re.sub(r'ol_uint_eq_u64\((\w+), ([^()]+)\)', r'\1.try_into() == Ok(\2)', s)
     md = re.match(r'^(\w+) = (\w+) / (.+);$', s)
